@@ -10,7 +10,7 @@ import copy
 import itertools
 import json
 
-from ..ch import S, Fail, absorb, run_jobs
+from ..ch import S, Fail, absorb, run_jobs, untraced
 from ..common import run_native
 from ..stubs import FORMAT_STUBS_NOTE, install_format_stubs
 
@@ -363,6 +363,73 @@ def append(elem):
     return harness
 
 
+def dict_items(keytype, elem):
+    """Item options '--x.KEY=TEXT' on Dict[keytype, elem], alone and after an earlier value: every key of an accepted result has the
+    declared key type, earlier items survive, an item given again is replaced; mappings that mix key types are judged key by key."""
+    from typing import Dict
+
+    from jsonargparse import ArgumentError, ArgumentParser
+
+    KT = {"int": int, "str": str}[keytype]
+    ET = {"int": int, "str": str}[elem]
+    p = ArgumentParser(exit_on_error=False)
+    p.add_argument("--x", type=Dict[KT, ET], default=None)
+    texts = {"int": ["5", "abc", "true"], "str": ["abc", "5"]}[elem]
+    good = {"int": "7", "str": "w"}[elem]
+
+    def conforms(d):
+        return isinstance(d, dict) and all(type(k) is KT for k in d) and all(type(v) is ET for v in d.values())
+
+    def once(prior, key, text, via_object):
+        argv = []
+        if prior == "json":
+            argv.append('--x={"1": %s}' % json.dumps(ET(7) if ET is int else "w"))
+        elif prior == "item":
+            argv.append("--x.1=" + good)
+        argv.append(f"--x.{key}={text}")
+        try:
+            res = p.parse_args(argv).x
+            acc = True
+        except ArgumentError:
+            acc, res = False, None
+        S.note("accepted" if acc else "rejected")
+        key_ok = KT is str or key.lstrip("-").isdigit()
+        val_ok = accept_text(elem, text)[0]
+        if acc != (key_ok and val_ok):
+            return Fail("compositional:dict-item-option", argv=argv, accepted=acc, key_ok=key_ok, value_ok=val_ok)
+        if acc:
+            if not conforms(res):
+                return Fail("conformance:accepted-result-does-not-conform", argv=argv, keys=[type(k).__name__ for k in res])
+            want_keys = ({KT("1")} if prior != "none" else set()) | {KT(key)}
+            if set(res) != want_keys:
+                return Fail("compositional:dict-item-option-keys", argv=argv, keys=sorted(map(repr, res)), want=sorted(map(repr, want_keys)))
+        if via_object and KT is int:
+            # one mapping that mixes key types: accepted iff every key is an int or the text of one
+            for obj, ok in (({1: ET(7) if ET is int else "w", "2": ET(8) if ET is int else "v"}, True), ({1: ET(7) if ET is int else "w", "x": ET(8) if ET is int else "v"}, False)):
+                try:
+                    r2 = p.parse_object({"x": dict(obj)}).x
+                    a2 = True
+                except ArgumentError:
+                    a2, r2 = False, None
+                if a2 != ok:
+                    return Fail("compositional:dict-mixed-keys", obj=repr(obj), accepted=a2)
+                if a2 and not conforms(r2):
+                    return Fail("conformance:accepted-result-does-not-conform", obj=repr(obj), keys=[type(k).__name__ for k in r2])
+        return True
+
+    once("none", "2", good, False)
+
+    def harness():
+        prior = S.pick("prior", ["none", "json", "item"])
+        key = S.pick("key", ["2", "1", "k", "-3"])
+        text = S.pick("text", texts)
+        via_object = S.flag("mixed_object")
+        with untraced():
+            return once(prior, key, text, via_object)
+
+    return harness
+
+
 def fixed_tuple(elems):
     install_format_stubs()
     INT_WINDOW[0] = (-2, 3) if _uses_restricted(elems) else None
@@ -483,6 +550,8 @@ def plan(tier):
     jobs.append(("union", dict(members=["str", ["Dict", "int"]], depth=1)))
     for el in ("int", "str", ["Union", "int", "str"], ["Union", "str", ["List", "int"]], ["Union", "int", ["List", "int"]], ["Optional", ["List", "int"]], ["Union", "float", "None"]):
         jobs.append(("append", dict(elem=el)))
+    for kt, el in (("int", "str"), ("int", "int"), ("str", "int")):
+        jobs.append(("dict_items", dict(keytype=kt, elem=el)))
     # two container members: an earlier member may convert some elements before it fails on a later one
     jobs.append(("union", dict(members=[["List", "PositiveInt"], ["List", "str"]], depth=1, pairs=True)))
     jobs.append(("union", dict(members=[["Dict", "PositiveInt"], ["Dict", "str"]], depth=1, pairs=True)))
